@@ -499,13 +499,31 @@ def cfold_operand_resolver(types):
     return op
 
 
+RESULT_GUARD = re.compile(r"if\s*\(((?:[^(){};]|\((?:[^(){};]|\([^(){};]*\))*\))*)\)\s*\{\s*foamFreeNode\s*\(\s*foam\s*\)\s*;"
+                          r"\s*foam\s*=\s*bcall\s*;\s*\}")
+
+
 def parse_cfold(src, types, macros, leafs, sig):
     text = strip_comments(read(src, "of_cfold.c"))
     body = function_body(text, "cfoldBCall")
-    cx = Ctx(types, macros, leafs, cfold_operand_resolver(types))
+    base_op = cfold_operand_resolver(types)
+    cur = {}
+
+    def operand(e):
+        # foam->foamX.XData after `foam = foamNewX(...)`: the value just stored in the result node
+        if e[0] == "mem" and e[1][0] == "mem" and e[1][1] == ("deref", ("id", "foam")):
+            if cur.get("result") is not None and e[2] in CFOLD_FIELD and e[1][2] == "foam" + e[2][:-4]:
+                return cur["result"][1]
+            raise CParseError("result field " + cexpr.show(e))
+        return base_op(e)
+    cx = Ctx(types, macros, leafs, operand)
     rows = []
     for name, chunk in switch_cases(body):
         row = {"name": name, "guard": None, "text": " ".join(chunk.split())}
+        # the one compound statement of the subset: give the folded node back and leave the call in place
+        #     if (<cond on the result>) { foamFreeNode(foam); foam = bcall; }
+        chunk = RESULT_GUARD.sub(lambda m: "__result_guard(%s);" % m.group(1), chunk)
+        cur["result"] = None
         sts = statements(chunk)
         try:
             if sts is None:
@@ -513,6 +531,7 @@ def parse_cfold(src, types, macros, leafs, sig):
             env = {}
             result = None
             guards = []
+            post_guards = []
             for s in sts:
                 if re.fullmatch(r"if\s*\(\s*!\s*cfoldFoldAll\s*\)\s*break", s):
                     row["guard"] = "All"
@@ -522,6 +541,14 @@ def parse_cfold(src, types, macros, leafs, sig):
                     continue
                 elif s == "break":
                     break
+                elif re.fullmatch(r"__result_guard\((.*)\)", s, re.S):
+                    # decline when the condition on the folded value holds
+                    if result is None:
+                        raise CParseError("result guard before the result")
+                    cur["result"] = result
+                    g = simp(tr(cx.parse(re.fullmatch(r"__result_guard\((.*)\)", s, re.S).group(1)), cx, env))
+                    cur["result"] = None
+                    post_guards.append(g)
                 elif re.fullmatch(r"if\s*\((.*)\)\s*break", s, re.S) and result is None:
                     # `if (<cexp>) break;` before the result: a conditional decline
                     gtxt = re.fullmatch(r"if\s*\((.*)\)\s*break", s, re.S).group(1)
@@ -556,10 +583,12 @@ def parse_cfold(src, types, macros, leafs, sig):
                 row["rty"] = None
             else:
                 e = simp(result[1])
+                for g in reversed(post_guards):
+                    e = ("guard", g, e)
                 for g in reversed(guards):
                     e = ("guard", g, e)
                 row["rty"], row["exp"] = result[0], e
-                row["guards"] = len(guards)
+                row["guards"] = len(guards) + len(post_guards)
         except CParseError as ex:
             row["exp"] = ("opaque", row["text"] or str(ex))
             row["why"] = str(ex)
